@@ -124,6 +124,15 @@ CHECKS = {
             TECH + ": seeded operator-program search for hidden-cursor states, cross-accessor agreement invariant, ddmin + replay"),
 }
 
+# dimensions added after the design was written (rounds 7-9 of the seeded-change exercise), appended to the level text
+EXTRA = {
+    "C01": "Since rounds 7-9: Heikin-Ashi as a parameter choice, timezone-aware streams, neighbour objects fed first in the same process, the process under a zone with offset changes, the live subject under a live simulated clock and the batch twin long after.",
+    "C03": "Since rounds 7-9: sibling members on equivalent spellings / day-shifted spans, two collapsing levels, lifespans (window of the reference), neighbour managers in the same process (other timeframes, same instants under another UTC offset), process zones with offset changes.",
+    "C07": "A second meter (transient memory per append via tracemalloc, minimum over the measured appends) sees work done below the interpreter; the counter counts function entries, jumps and branches (LINE events are not bit-stable); without a timeframe the candle manager itself is measured too; probes also as bare Candle objects / same-second candles, with a never-evicting lifespan and aware timestamps.",
+    "C18": "The wall clock is simulated (live feed clock per arrival, converted with the zone under test); neighbour managers on the stream moved by the size of an offset change; timestamps also as instances of a datetime subclass.",
+    "C19": "Since rounds 7-9: timezone-aware streams with both ISO spellings of UTC and an offset oracle, Hexital-level timeframes with a member-based reference, read-only calls on freshly built objects before registration.",
+}
+
 NA = [
     ("C04", "pure function of (input series, period): no schedule, observation time, environment or fault enters the statement; deciding it needs an independent formula reference on generated inputs (property-based testing), not simulation. Live-vs-batch agreement of the same values is C01."),
     ("C05", "pure function of (candles, parameters); same reason as C04."),
@@ -150,7 +159,8 @@ def main():
             "evidence_file": f"evidence/{pid}.json",
             "replay_cmd_template": "./check replay {path}",
             "engine": "hexsim",
-            "level_claimed": {"category": level, "text": text, "design_ref": f"DESIGN.md section 4, {pid}"},
+            "level_claimed": {"category": level, "text": (text + " " + EXTRA.get(pid, "")).strip(),
+                              "design_ref": f"DESIGN.md section 4 and section 14, {pid}"},
             "level_note": note,
             "technique": tech,
         })
